@@ -165,6 +165,7 @@ func c01Stream(space string) engine.RunFunc {
 		prevWasErr := false
 		prevErr, prevOff := "", -1
 		haveErr := false
+		sawEnd := false
 		var obs uint64 = 14695981039346656037
 		abs := abstractState(s)
 		for {
@@ -188,6 +189,21 @@ func c01Stream(space string) engine.RunFunc {
 			}
 			obs = (obs ^ uint64(tt)) * 1099511628211
 			obs = (obs ^ uint64(off)) * 1099511628211
+			// once the end of the input has been reported (error token with io.EOF), every further call must report
+			// exactly that again (Err() is linear in the input for css.Parser: only evaluated on the enumerated sizes)
+			if n <= 4096 {
+				if tt == 0 {
+					isEOF := s.err() == io.EOF
+					if sawEnd && !isEOF {
+						c.Fail("end-not-sticky", fmt.Sprintf("call %d: after the end of the input had been reported (error token, io.EOF) a further call reports %q", calls, errText(s.err())))
+						return
+					}
+					sawEnd = sawEnd || isEOF
+				} else if sawEnd {
+					c.Fail("end-not-sticky", fmt.Sprintf("call %d: after the end of the input had been reported a further call returns %s %q", calls, s.ttName(tt), data))
+					return
+				}
+			}
 			if tt == 0 {
 				// Err() is only evaluated once two consecutive error reports
 				// share an offset (css.Parser.Err() is linear in the input)
